@@ -18,7 +18,9 @@ use crate::types::*;
 // Bounds, fixed from the algorithms' worst cases with margin (see DESIGN.md C05); not fitted.
 pub const A: u64 = 16; // per level
 pub const B: u64 = 32;
-pub const C: u64 = 8; // per element, bulk
+pub const C: u64 = 8; // per element, bulk (extend: either strategy)
+pub const C_PQ: u64 = 4; // building a binary heap: <= 2 comparisons per element measured/known worst, 2x margin
+pub const C_DPQ: u64 = 6; // building a min-max heap: <= 2.95 measured, 2x margin
 pub const D: u64 = 64;
 
 #[derive(Clone, Copy, PartialEq, Eq, Debug, Serialize, Deserialize, Hash)]
@@ -142,7 +144,7 @@ pub fn cost_strategy(thorough: bool) -> BoxedStrategy<CostCase> {
         10 => Just(CBulk::None),
         1 => Just(CBulk::FromVec),
         1 => Just(CBulk::FromIter),
-        1 => (0u8..4).prop_map(CBulk::Append),
+        2 => (0u8..8).prop_map(CBulk::Append),
         1 => Just(CBulk::Retain),
         1 => Just(CBulk::RetainMut),
         1 => Just(CBulk::IterMutDrop),
@@ -191,7 +193,7 @@ fn log_bound(n: usize) -> u64 {
 }
 
 pub struct Maxima {
-    pub worst: HashMap<&'static str, (u64, u64, usize)>, // op -> (count, bound, n)
+    pub worst: HashMap<(bool, &'static str), (u64, u64, usize)>, // (double, op) -> (count, bound, n)
 }
 
 fn cost_run<Q: Queue + 'static>(c: &CostCase, stats: &mut Stats, maxima: Option<&mut Maxima>) -> Result<bool, Failure> {
@@ -207,7 +209,7 @@ fn cost_run<Q: Queue + 'static>(c: &CostCase, stats: &mut Stats, maxima: Option<
     };
     let mut note = |op: &'static str, got: u64, bound: u64, n: usize, maxima: &mut Option<&mut Maxima>| {
         if let Some(m) = maxima.as_mut() {
-            let e = m.worst.entry(op).or_insert((0, bound, n));
+            let e = m.worst.entry((Q::DOUBLE, op)).or_insert((0, bound, n));
             if got * e.1.max(1) > e.0 * bound.max(1) || e.0 == 0 {
                 *e = (got, bound, n);
             }
@@ -243,7 +245,10 @@ fn cost_run<Q: Queue + 'static>(c: &CostCase, stats: &mut Stats, maxima: Option<
                     2 => n,
                     _ => 2 * n + 1,
                 };
-                let mut other = Q::from_vec((0..m).map(|i| (Key::new((n / 2 + i) as u32, 2), Prio::new(pattern_prio(c.pattern + 1, i, m)))).collect());
+                // k & 4: the appended priorities dominate the receiver's (ascending across the two queues)
+                let off = if k & 4 == 4 { (n as i64) * 2 + (1 << 26) } else { 0 };
+                let pat = if k & 4 == 4 { 0 } else { c.pattern + 1 };
+                let mut other = Q::from_vec((0..m).map(|i| (Key::new((n / 2 + i) as u32, 2), Prio::new(off + pattern_prio(pat, i, m)))).collect());
                 reset_cmp_count();
                 q.append(&mut other);
                 ("append", cmp_count(), n + m)
@@ -319,7 +324,10 @@ fn cost_run<Q: Queue + 'static>(c: &CostCase, stats: &mut Stats, maxima: Option<
             CBulk::None => ("", 0, 0),
         };
         if !name.is_empty() {
-            let bound = if total == 0 { 0 } else { C * total as u64 + D };
+            // the heap that is (re)built: of the other kind for a conversion
+            let builds_double = if name == "convert" { !Q::DOUBLE } else { Q::DOUBLE };
+            let cc = if builds_double { C_DPQ } else { C_PQ };
+            let bound = if total == 0 { 0 } else { cc * total as u64 + D };
             note(name, got, bound, n, &mut maxima);
             if got > bound {
                 return Err(fail(name, n, got, bound, &what));
@@ -554,8 +562,9 @@ pub fn calibrate(cases: u32, thorough: bool) {
     }
     let mut v: Vec<_> = m.worst.into_iter().collect();
     v.sort();
-    for (op, (got, bound, n)) in v {
-        println!("{:24} worst {:>10} of bound {:>10} at n={:>8}  ratio {:.3}", op, got, bound, n, got as f64 / bound.max(1) as f64);
+    for ((d, op), (got, bound, n)) in v {
+        let op = format!("{}:{}", if d { "DPQ" } else { "PQ" }, op);
+        println!("{:28} worst {:>10} of bound {:>10} at n={:>8}  ratio {:.3}", op, got, bound, n, got as f64 / bound.max(1) as f64);
     }
 }
 
